@@ -6,6 +6,7 @@
 import XotModel.Driver.Entity
 import XotModel.Driver.Tree
 import XotModel.Driver.Forest
+import XotModel.Driver.Fmap
 
 open XotModel.Driver
 
@@ -24,6 +25,10 @@ def dispatchAll (st : MState) (line : String) : MState × String :=
   match words line with
   | "forest" :: rest =>
     (match handleForest st.forest rest with
+     | some (fs, resp) => ({ st with forest := fs }, resp)
+     | none => (st, "bad-request"))
+  | "fmap" :: rest =>
+    (match handleFmap st.forest rest with
      | some (fs, resp) => ({ st with forest := fs }, resp)
      | none => (st, "bad-request"))
   | _ =>
